@@ -473,7 +473,7 @@ theorem C06_skeleton_has : skel_TypedValue_Has =
   decide
 
 theorem C06_skeleton_compute : skel_TypedValue_Compute =
-    ["lock t.mutex", "defer unlock t.mutex", "if{", "call t.kv.Get", "if{", "if{", "return", "}if", "}else{", "if{",
+    ["lock t.mutex", "defer unlock t.mutex", "call t.cachedValue", "if{", "call t.kv.Get", "if{", "if{", "return", "}if", "}else{", "if{",
      "return", "}else{", "}if", "}if", "}if", "if{", "if{", "return", "}if", "return", "}else{", "if{", "return",
      "}else{", "call t.kv.Set", "if{", "return", "}if", "}if", "}if", "return"] := by decide
 
@@ -498,6 +498,29 @@ theorem C06_skeleton_store_delete : skel_TypedStore_Delete =
 theorem C06_skeleton_store_iterate : skel_TypedStore_Iterate =
     ["func{", "if{", "return", "}if", "if{", "return", "}if", "return", "}func", "call t.kv.Iterate", "if{", "return",
      "}if", "return"] := by decide
+
+theorem C06_skeleton_store_iterate_keys : skel_TypedStore_IterateKeys =
+    ["func{", "if{", "return", "}if", "return", "}func", "call t.kv.IterateKeys", "if{", "return", "}if", "return"] := by
+  decide
+
+theorem C06_skeleton_store_delete_prefix_clear :
+    skel_TypedStore_DeletePrefix = ["call t.kv.DeletePrefix", "return"] ∧ skel_TypedStore_Clear = ["call t.kv.Clear", "return"] := by
+  decide
+
+/-- Type facts.  `TypedValue`: exactly one store, one key, the two codec functions, the two cache pointers
+(`*V`, `*bool` — the model's `Option V`, `Option Bool`) and ONE `RWMutex` by value; no further field that another
+method could cache in, no embedded type that could shadow `mutex`. -/
+theorem C06_skeleton_type_typedvalue : skel_type_TypedValue =
+    ["struct", "kv KVStore", "keyBytes []byte", "vToBytes ObjectToBytes[V]", "bytesToV BytesToObject[V]", "valueCached *V",
+     "hasCached *bool", "mutex syncutils.RWMutex"] := by decide
+
+/-- `TypedStore` is stateless: the store and the four codec functions, nothing that could cache. -/
+theorem C06_skeleton_type_typedstore : skel_type_TypedStore =
+    ["struct", "kv KVStore", "keyToBytes ObjectToBytes[K]", "bytesToKey BytesToObject[K]", "valueToBytes ObjectToBytes[V]",
+     "bytesToValue BytesToObject[V]"] := by decide
+
+/-- `syncutils.RWMutex` (default build) is Go's `sync.RWMutex`, whose semantics `Hive/Model/TypedConc.lean` writes down. -/
+theorem C06_skeleton_type_rwmutex : skel_type_RWMutex = ["sync.RWMutex"] := by decide
 
 end Skeleton
 
